@@ -266,6 +266,38 @@ theorem revocation_before_credential (E : Env) (K : KeyEnv) (hE : EnvOK E) (w0 :
   obtain ⟨rfl, _⟩ := registerRevocation_ok hacc
   simp
 
+/-- `revocation_event_stored_or_retried`: a revocation that passes `RegisterRevocation`'s checks and is delivered by the
+    network is stored (event done), or — when the store fails with a context time-out / cancellation, however often that
+    error was wrapped — the event is handed back for a retry; it is dropped for good only for a non-transient storage error.
+    Nothing is stored on a failed delivery. -/
+theorem revocation_event_stored_or_retried (K : KeyEnv) (n n1 : Node) (r : Revocation) (fault : StoreFault)
+    (hacc : registerRevocation K n r = .ok n1) :
+    (fault = .none ∧ handleRevocationEvent K n r fault = (.done, n1) ∧ r ∈ n1.netRevs) ∨
+    ((∃ k, fault = .transient k) ∧ handleRevocationEvent K n r fault = (.retry, n)) ∨
+    (fault = .other ∧ handleRevocationEvent K n r fault = (.fatal, n)) := by
+  have hmem : r ∈ n1.netRevs := by obtain ⟨rfl, _⟩ := registerRevocation_ok hacc; simp
+  cases fault with
+  | none => exact Or.inl ⟨rfl, by simp [handleRevocationEvent, registerRevocationF, hacc], hmem⟩
+  | transient k => exact Or.inr (Or.inl ⟨⟨k, rfl⟩, by simp [handleRevocationEvent, registerRevocationF, hacc]⟩)
+  | other => exact Or.inr (Or.inr ⟨rfl, by simp [handleRevocationEvent, registerRevocationF, hacc]⟩)
+
+/-- `redelivered_revocation_effective`: after any number of deliveries that failed with transient store errors, the
+    retried delivery (store healthy) stores the revocation, and from then on the credential is answered revoked for ever -/
+theorem redelivered_revocation_effective (E : Env) (K : KeyEnv) (hE : EnvOK E) (w0 : World) (h0 : WInv E w0) (i : Bool) (r : Revocation) (c : Cred)
+    (wraps : List Nat) (n1 : Node) (hacc : registerRevocation K (w0.get i) r = .ok n1) (hc : c.id = some r.subject) (acts : List Act) :
+    (wraps.foldl (fun n k => (handleRevocationEvent K n r (.transient k)).2) (w0.get i)) = w0.get i ∧
+    (handleRevocationEvent K (w0.get i) r .none) = (.done, n1) ∧
+    (verify E i (run E K (w0.set i n1) acts) c).1 = .revoked := by
+  refine ⟨?_, by simp [handleRevocationEvent, registerRevocationF, hacc], ?_⟩
+  · induction wraps with
+    | nil => rfl
+    | cons k rest ih => simp only [List.foldl_cons]; rw [show (handleRevocationEvent K (w0.get i) r (.transient k)).2 = w0.get i by simp [handleRevocationEvent, registerRevocationF, hacc]]; exact ih
+  · have hp : WPrim E K w0 (w0.set i n1) := WPrim.register w0 i r n1 hacc
+    refine revoked_forever_network E K hE _ (hp.nodes h0).1 i r c ?_ hc acts
+    rw [get_set_same]
+    obtain ⟨rfl, _⟩ := registerRevocation_ok hacc
+    simp
+
 /-- `issuer_only`: `RegisterRevocation` stores a revocation only if its issuer is the DID prefix of the revoked credential's
     id, the proof's key id is prefixed by the same issuer, that key resolves and the signature verifies under it; in every
     other case nothing is stored. Consequently every revocation a node ever holds satisfies this. -/
@@ -331,6 +363,9 @@ def exRevByB : Revocation :=
 
 example : Accepted exKeys exRevByB := by
   refine ⟨_, "pkB", rfl, by decide, by decide, by decide, by decide⟩
+
+example : handleRevocationEvent exKeys (exNode "https://n0") exRevByB (.transient 3) = (.retry, exNode "https://n0") := by decide
+example : (handleRevocationEvent exKeys (exNode "https://n0") exRevByB .none).1 = .done := by decide
 
 /-- `foreign_prefix_witness` (candidate defect 16): the check keys on the DID prefix of the credential *id*. For a credential
     of issuer A whose id is not prefixed by A but by B (the default validator does not forbid it), B's revocation is stored
@@ -570,5 +605,16 @@ theorem fact_register_and_verify_order :
     Facts.C11.validateRevocationConds = ["r.Subject.String() == \"\" || r.Subject.Fragment == \"\"", "len(r.Context) != 0",
       "val == RevocationType", "!foundType", "r.Issuer.String() == \"\"", "r.Date.IsZero()", "r.Proof == nil"] ∧
     Facts.C11.ambassadorRevocationCalls = ["n.verifier.RegisterRevocation"] := by decide
+
+set_option maxRecDepth 100000 in
+/-- the ambassador hands a failed revocation event to `handleError`, which recognises context time-outs / cancellations with
+    `errors.Is` (through any `%w` wrapping; no identity `switch err`) before anything is declared fatal -/
+theorem fact_ambassador_transient_errors :
+    Facts.C11.ambassadorHandleRevocationCalls = ["n.jsonLDRevocationCallback", "n.handleError"] ∧
+    Facts.C11.ambassadorHandleErrorSwitches = [] ∧
+    Facts.C11.ambassadorHandleErrorConds = ["errors.Is(err,context.Canceled) || errors.Is(err,context.DeadlineExceeded)",
+      "errors.Is(err,jsonld.ContextURLNotAllowedErr)",
+      "errors.As(err,&jsonLDError) && jsonLDError.Code == ld.LoadingRemoteContextFailed && !errors.Is(err,jsonld.ContextURLNotAllowedErr)"] := by
+  decide
 
 end Nuts.C11.Props
